@@ -351,6 +351,56 @@ def unframe (maxU : Nat) (unlz : Bytes → Nat → Option Bytes) (f : Bytes) : O
   | none => none
   | some (size, data) => decompress maxU unlz size data
 
+/-! ### TL2 size codec and TL2 strings (internal/vkgo/basictl/basictl2.go) -/
+
+def le64 (n : Nat) : Bytes :=
+  [UInt8.ofNat (n % 256), UInt8.ofNat (n / 256 % 256), UInt8.ofNat (n / 65536 % 256), UInt8.ofNat (n / 16777216 % 256),
+   UInt8.ofNat (n / 4294967296 % 256), UInt8.ofNat (n / 1099511627776 % 256), UInt8.ofNat (n / 281474976710656 % 256),
+   UInt8.ofNat (n / 72057594037927936 % 256)]
+
+def mediumStringMarker : Nat := 254
+def maxInt : Nat := 9223372036854775807   -- math.MaxInt on the 64-bit platforms statshouse runs on
+
+def tl2Tiny (l : Nat) : Bool := l < mediumStringMarker
+def tl2Medium (l : Nat) : Bool := l < mediumStringMarker + 65536
+
+/-- TL2WriteSize (TL2PutSize writes the same bytes in place, TL2CalculateSize is their number): one byte below 254,
+    marker 254 and uint16(l-254) below 254+2^16, otherwise marker 255 and uint64(l) -/
+def tl2WriteSize (l : Nat) : Bytes :=
+  if tl2Tiny l then [UInt8.ofNat l]
+  else if tl2Medium l then [254, UInt8.ofNat ((l - 254) % 256), UInt8.ofNat ((l - 254) / 256 % 256)]
+  else 255 :: le64 l
+
+def tl2CalculateSize (l : Nat) : Nat :=
+  if tl2Tiny l then 1 else if tl2Medium l then 3 else 9
+
+/-- TL2ParseSize: the huge form is accepted for any value ≤ MaxInt (non-canonical lengths are allowed there) -/
+def tl2ParseSize : Bytes → Option (Nat × Bytes)
+  | [] => none
+  | b0 :: r =>
+    if b0.toNat < mediumStringMarker then some (b0.toNat, r)
+    else if b0.toNat = mediumStringMarker then
+      match r with
+      | l0 :: l1 :: r' => some (mediumStringMarker + (l0.toNat + l1.toNat * 256), r')
+      | _ => none
+    else
+      match r with
+      | l0 :: l1 :: l2 :: l3 :: l4 :: l5 :: l6 :: l7 :: r' =>
+        if l0.toNat + l1.toNat * 256 + l2.toNat * 65536 + l3.toNat * 16777216 + l4.toNat * 4294967296
+            + l5.toNat * 1099511627776 + l6.toNat * 281474976710656 + l7.toNat * 72057594037927936 > maxInt then none
+        else some (l0.toNat + l1.toNat * 256 + l2.toNat * 65536 + l3.toNat * 16777216 + l4.toNat * 4294967296
+            + l5.toNat * 1099511627776 + l6.toNat * 281474976710656 + l7.toNat * 72057594037927936, r')
+      | _ => none
+
+/-- StringWriteTL2 / StringWriteTL2Bytes -/
+def tl2WriteStr (b : Bytes) : Bytes := tl2WriteSize b.length ++ b
+
+/-- StringReadTL2 / StringReadTL2Bytes -/
+def tl2ReadStr (r : Bytes) : Option (Bytes × Bytes) :=
+  match tl2ParseSize r with
+  | none => none
+  | some (l, r1) => takeN l r1
+
 /-! ### helpers for the driver -/
 
 def Vals.toList : Vals → List Val
